@@ -33,7 +33,7 @@ Definition is_tchar (b : Z) : bool :=
   is_alpha b || is_digit b ||
   existsb (Z.eqb b) [33;35;36;37;38;39;42;43;45;46;94;95;96;124;126].
 Definition is_token (l : bytes) : bool := match l with [] => false | _ => forallb is_tchar l end.
-(* strings.TrimSpace on ASCII input: \t \n \v \f \r SP *)
+(* strings.TrimSpace on ASCII input: \t \n \v \f \r SP -- no longer used by the modelled code (fix 6c62a1e) *)
 Definition is_go_space (b : Z) : bool := ((9 <=? b) && (b <=? 13)) || (b =? 32).
 (* textproto.TrimString: SP \t \n \r *)
 Definition is_ascii_space4 (b : Z) : bool := (b =? 32) || (b =? 9) || (b =? 10) || (b =? 13).
@@ -259,12 +259,12 @@ Definition cl_consistent (cls : list bytes) : bool :=
 Definition cl_first (cls : list bytes) : bytes :=
   match cls with
   | [] => []
-  | [f] => go_trim f
-  | f :: _ => go_trim (trim4 f)
+  | [f] => trim4 f
+  | f :: _ => trim4 (trim4 f)
   end.
 Definition bfe_trailer_ok (h : fields) : bool :=
   let raw := get_first s_trailer h in
-  forallb (fun k => let k' := canon_key (go_trim k) in
+  forallb (fun k => let k' := canon_key (trim4 k) in
                     negb (bytes_eqb k' s_te || bytes_eqb k' s_trailer || bytes_eqb k' s_cl))
           (match raw with [] => [] | _ => split_byte 44 raw end).
 (* inl code = rejected: 7 transfer coding, 8 content length (conflicting, empty (fix e9e83bf), not 1*DIGIT,
